@@ -113,6 +113,12 @@ func (f *frame) instr(ins ssa.Instruction) {
 	case *ssa.Alloc:
 		et := deref(x.Type())
 		r := f.allocRef(x.Name())
+		if !x.Heap {
+			// a local whose address does not escape (go/ssa's own analysis): no callee can write it
+			vc.declareOnce("stackobj", "(declare-fun stackobj (Int) Bool)")
+			vc.emit(fmt.Sprintf("(assert (stackobj %s))", r))
+			vc.hasStack = true
+		}
 		if _, ok := isStruct(et); ok {
 			f.st = f.zeroStruct(r, et, f.st)
 		} else if a, ok := et.Underlying().(*types.Array); ok {
